@@ -8,3 +8,7 @@ pub mod evolve_r {
     include!("gen/t_evolve_r.rs");
 }
 pub use evolve_r::t_evolve_r::t_evolve_r as er;
+pub mod unknown {
+    include!("gen/t_unknown.rs");
+}
+pub use unknown::t_unknown::t_unknown as tu;
